@@ -263,7 +263,7 @@ def eval_cpp(case):
             break
         for key in a:
             n += 1
-            if not pyimpl.close(a[key], b[key], 1e-12, abs(b[key])) and not (a[key] != a[key] and b[key] != b[key]):
+            if not pyimpl.close(a[key], b[key], 1e-12, max(1.0, abs(b[key]))) and not (a[key] != a[key] and b[key] != b[key]):
                 fails.append({"key": "cse-changes-result:cpp", "what": f"{d['name']}: {key} = {a[key]!r} with CSE on, {b[key]!r} "
                               f"off at {pts[p]['env']}"})
                 break
